@@ -46,7 +46,9 @@ fn judge(name: &str, best: usize, must_run: &[usize]) -> Result<String, String> 
     }
     for &p in must_run {
         if t[best][p] == 0 {
-            return Err(format!("{name}: primitive {} was expected to run on '{}' but its entry point was never reached (trace: {desc:?})", PRIM_NAMES[p], ISA_NAMES[best]));
+            // nothing ran on a wrong ISA (checked above) and nothing on the best one: no trace point was
+            // reached at all for this primitive - the instrumentation does not see it (machinery, not a verdict)
+            return Err(format!("UNTRACED {name}: primitive {} reached no trace point on any ISA (trace: {desc:?})", PRIM_NAMES[p]));
         }
     }
     Ok(format!("{name}[{}]", desc.join(",")))
@@ -295,6 +297,10 @@ pub fn run(ctx: &Ctx, rep: &mut Report) {
                     }
                 }
                 if let Some(J::Str(f)) = j.get("fail") {
+                    if f.starts_with("UNTRACED") {
+                        rep.machinery_errors.push(format!("C14 {arch}/{}: {f}", mask_name(arch, *mask)));
+                        continue;
+                    }
                     rep.violation(Violation { key: format!("{arch}-mask-{}", mask_name(arch, *mask)), case: Kv::new().with("arch", arch).with("mask", mask).dump(), expected: format!("under feature set {{{}}} only the best reported ISA executes, for every primitive", mask_name(arch, *mask)), observed: f.clone() });
                 }
                 if let Some(J::Str(d)) = j.get("digest") {
